@@ -8,6 +8,7 @@ use crate::src::Src;
 use crate::{check, nopanic, tryp};
 use bc_components::{Digest, DigestProvider};
 use bc_envelope::prelude::*;
+use bc_envelope::known_values;
 use std::collections::BTreeSet;
 
 pub fn prop() -> Prop {
@@ -229,6 +230,53 @@ pub fn run(data: &[u8], ctx: &mut Ctx) -> Outcome {
     if src.chance(30) {
         return sskr_consequence(ctx, &mut src, &e, &m);
     }
+    if src.chance(30) {
+        return type_consequence(ctx, &mut src, &e, &m);
+    }
+    Outcome::Pass
+}
+
+/// Types are found by digest as well: after the type OBJECT of an 'isA' assertion (or the predicate) has
+/// been obscured, the envelope still has that type; an attachment next to it is reported as before. (An
+/// attachment whose own payload or vendor is obscured is a different matter: its parts cannot be read
+/// any more and it is reported invalid - nothing the property promises.)
+fn type_consequence(ctx: &mut Ctx, src: &mut Src, e: &Envelope, m: &M) -> Outcome {
+    let isa = M::Known(1).digest();
+    let att = M::Known(50).digest();
+    if m.is_obscured() || m.assertions().iter().any(|a| matches!(a.subject(), M::Assertion(p, _) if p.digest() == isa || p.digest() == att)) {
+        return Outcome::Pass;
+    }
+    let kv = KnownValue::new(*src.pick(&[200u64, 201, 7, 65536, u64::MAX]));
+    let text_type = format!("Type{}", src.below(3));
+    let typed = nopanic!(ctx, e.add_type(kv.clone()).add_type(text_type.as_str()).add_attachment("payload", "com.example", Some("urn:x")), "types", "C02/types/build");
+    let targets: Vec<(&str, Envelope)> = vec![
+        ("known-value type object", Envelope::new(kv.clone())),
+        ("text type object", Envelope::new(text_type.as_str())),
+        ("predicate 'isA'", Envelope::new(known_values::IS_A)),
+    ];
+    let (tname, target) = &targets[src.below(targets.len())];
+    // the digest must not belong to an element of the original envelope as well
+    let td = d32(&target.digest());
+    if m.elements().iter().any(|x| x.digest() == td) {
+        return Outcome::Pass;
+    }
+    let action = gen_obs(src);
+    let hidden = nopanic!(ctx, typed.elide_removing_target_with_action(target, &action_of(action)), "types", "C02/types/transform");
+    check!(ctx, hidden.digest() == typed.digest(), "types", "C02/types/transform", "obscuring the {} changed the digest", tname);
+    ctx.class(&format!("types:{}:{:?}", tname, action));
+    let key = "C02/types/after";
+    let h = nopanic!(ctx, hidden.has_type(&kv), "types", key);
+    check!(ctx, h && hidden.check_type(&kv).is_ok(), "types", key, "after {:?} of the {} (no digest changed) has_type('{}') = {}", action, tname, kv.value(), h);
+    let h = nopanic!(ctx, hidden.has_type_envelope(text_type.as_str()), "types", key);
+    check!(ctx, h && hidden.check_type_envelope(text_type.as_str()).is_ok(), "types", key, "after {:?} of the {} has_type_envelope({:?}) = {}", action, tname, text_type, h);
+    let n = nopanic!(ctx, hidden.types().len(), "types", key);
+    check!(ctx, n == 2, "types", key, "after {:?} of the {} types() reports {} types, 2 were added", action, tname, n);
+    let want: BTreeSet<D32> = typed.attachments().map(|v| v.iter().map(|x| d32(&x.digest())).collect()).unwrap_or_default();
+    let got: Result<BTreeSet<D32>, String> = nopanic!(ctx, hidden.attachments().map(|v| v.iter().map(|x| d32(&x.digest())).collect()).map_err(|x| x.to_string()), "types", key);
+    check!(ctx, want.len() == 1 && got.as_ref() == Ok(&want), "types", key, "after {:?} of the {} attachments() reports {:?}, before it reported {} attachment", action, tname, got.as_ref().map(|x| x.len()), want.len());
+    ctx.fingerprint(&[0x55, action as u8]);
+    ctx.fingerprint(&td);
+    ctx.nontrivial = true;
     Outcome::Pass
 }
 
